@@ -3,7 +3,7 @@ import random, json, os
 from . import _scn
 from .. import gen, oracles as O
 
-EDITS = ["flip", "flip_first", "flip_last", "insert", "delete", "truncate", "empty", "append", "cr_insert", "crlf", "bom", "trailing_space", "case", "remove", "rmchain"]
+EDITS = ["wipe", "flip", "flip_first", "flip_last", "insert", "delete", "truncate", "empty", "append", "cr_insert", "crlf", "bom", "trailing_space", "case", "remove", "rmchain"]
 COMMANDS = ["create", "create_sf", "verify", "verifydh", "diff", "info", "infosf", "flatten"]
 
 
@@ -40,6 +40,10 @@ def build(seed):
     cmd = rnd.choice(COMMANDS)
     if edit == "rmchain":
         ops.append({"op": "rmchain", "hist": hist})
+        exp = 32
+    elif edit == "wipe":
+        # the folder is still there, everything in it is gone: an existing ascmhl folder without chain file
+        ops.append({"op": "wipe", "hist": hist})
         exp = 32
     else:
         kind = {"flip_first": "flip", "flip_last": "flip"}.get(edit, edit)
